@@ -26,8 +26,8 @@ type CheckSpec struct {
 }
 
 var Checks = map[string]CheckSpec{
-	"C01": {Property: "C01", Level: "exploration", Profiles: []string{"general", "book", "fixed", "clock", "general"}, QuickS: 50, ThoroughS: 600},
-	"C02": {Property: "C02", Level: "exploration", Profiles: []string{"general", "clock", "book", "fixed", "vesting"}, QuickS: 50, ThoroughS: 600},
+	"C01": {Property: "C01", Level: "exploration", Profiles: []string{"general", "book", "fixed", "clock", "general", "extreme"}, QuickS: 50, ThoroughS: 600},
+	"C02": {Property: "C02", Level: "exploration", Profiles: []string{"general", "clock", "book", "fixed", "vesting", "extreme"}, QuickS: 50, ThoroughS: 600},
 	"C03": {Property: "C03", Level: "exploration", Profiles: []string{"book", "book", "rounds"}, QuickS: 50, ThoroughS: 600},
 	"C04": {Property: "C04", Level: "exploration", Profiles: []string{"book", "fixed", "book", "general"}, QuickS: 50, ThoroughS: 600},
 	"C05": {Property: "C05", Level: "exploration", Profiles: []string{"book", "fixed", "rounds", "general"}, QuickS: 45, ThoroughS: 600},
@@ -44,7 +44,7 @@ var Checks = map[string]CheckSpec{
 	"C16": {Property: "C16", Level: "exploration", Profiles: []string{"book", "rounds", "fixed", "vesting"}, Opts: ExecOpts{Queries: true, QueryEvery: 4}, QuickS: 45, ThoroughS: 600},
 	"C17": {Property: "C17", Level: "fault_enumeration", Custom: "hooks", Profiles: []string{"hooks", "book", "clock", "fixed"}, QuickS: 40, ThoroughS: 600},
 	"C20": {Property: "C20", Level: "exploration", Custom: "cli", QuickS: 60, ThoroughS: 600},
-	"C18": {Property: "C18", Level: "exploration", Profiles: []string{"messages", "general"}, Opts: ExecOpts{Trace: true}, QuickS: 50, ThoroughS: 600},
+	"C18": {Property: "C18", Level: "exploration", Profiles: []string{"messages", "general", "messages", "extreme"}, Opts: ExecOpts{Trace: true}, QuickS: 50, ThoroughS: 600},
 	"C19": {Property: "C19", Level: "exploration", Profiles: []string{"concurrent", "general"}, Opts: ExecOpts{Trace: true}, QuickS: 50, ThoroughS: 600},
 }
 
@@ -496,6 +496,9 @@ func SpecFor(prop, tier string) CheckSpec {
 	spec := Checks[prop]
 	if tier == "thorough" && spec.Opts.BankFailEnum {
 		spec.Opts.MaxEnumBlocks = 40
+	}
+	if tier == "thorough" && prop == "C14" {
+		spec.Opts.ReplayK = 4 // four shadow replicas instead of two
 	}
 	return spec
 }
